@@ -10,9 +10,9 @@ use icy_engine::{
 
 pub const EXTS: [&str; 19] = ["ans", "ice", "diz", "icy", "idf", "bin", "xb", "tnd", "pcb", "avt", "asc", "adf", "msg", "an1", "an5", "an9", "seq", "ata", "xyz"];
 
-pub const DISK_FAULTS: [&str; 13] = [
+pub const DISK_FAULTS: [&str; 16] = [
     "short", "torn", "lost_sector", "stale_tail", "bitrot", "overwrite", "misdirected", "dup_sector", "misnamed", "sauce_tail_only", "comnt_cut", "header_extreme",
-    "number_extreme",
+    "number_extreme", "sauce_field_extreme", "sauce_text_bytes", "tdf_name_bytes",
 ];
 
 /// Faults of the clipboard channel (bytes another process put there), on top of the generic ones.
@@ -178,7 +178,7 @@ pub fn big_font(rng: &mut Rng) -> Vec<u8> {
 /// "psf" / "tdf" / "pal" / "clip" for the other readers.
 pub fn base_file_ext(rng: &mut Rng, force: Option<&str>) -> (String, String, Vec<u8>) {
     let kind = match force {
-        None => rng.below(20),
+        None => rng.below(21),
         Some("psf") => 0,
         Some("tdf") => 2,
         Some("pal") => 4,
@@ -186,6 +186,43 @@ pub fn base_file_ext(rng: &mut Rng, force: Option<&str>) -> (String, String, Vec
         Some(_) => 19,
     };
     match kind {
+        20 => {
+            // a text file that announces itself as UTF-8 (byte order mark): the loaders then feed whole characters,
+            // not bytes - from the far ends of the planes, and ones whose low 16 bits look like a surrogate
+            const CHARS: [u32; 16] = [
+                0xE9, 0x2588, 0x263A, 0xFFFD, 0xFFFE, 0xD7FF, 0xE000, 0x1_D800, 0x1_DC00, 0x1_DFFF, 0x1_F600, 0x2_D800, 0xF_D800, 0x10_FFFF, 0x10_DC00, 0x1_0000,
+            ];
+            let ext = *rng.pick(&["asc", "ans", "avt", "pcb", "msg", "diz", "ice"]);
+            let mut s = String::from("\u{feff}");
+            for _ in 0..1 + rng.usize(30) {
+                match rng.below(6) {
+                    0 => s.push_str("Hello "),
+                    1 => s.push_str("\r\n"),
+                    2 if ext == "ans" || ext == "ice" || ext == "diz" => s.push_str(&format!("\x1b[{};{}H\x1b[1;3{}m", 1 + rng.below(30), 1 + rng.below(90), rng.below(8))),
+                    2 => s.push('\t'),
+                    _ => {
+                        if let Some(c) = char::from_u32(*rng.pick(&CHARS)) {
+                            s.push(c);
+                        }
+                    }
+                }
+            }
+            let mut bytes = s.into_bytes();
+            if rng.chance(1, 3) {
+                // a multi-byte character torn apart: its lead byte is there, ASCII follows where the
+                // continuation bytes should be (what an overwrite inside a character leaves behind)
+                let mut at = 3 + rng.usize(bytes.len() - 2);
+                while at < bytes.len() && bytes[at] & 0xC0 == 0x80 {
+                    at += 1;
+                }
+                let lead = *rng.pick(&[0xEDu8, 0xED, 0xF4, 0xF5, 0xF7, 0xE0, 0xC0, 0xFF, 0x80]);
+                let tail: &[u8] = if rng.chance(1, 2) { b"000 " } else { b"ab\r\n" };
+                let mut ins = vec![lead];
+                ins.extend(tail);
+                bytes.splice(at..at, ins);
+            }
+            ("Buffer::from_bytes".into(), format!("unicode.{ext}"), bytes)
+        }
         0 | 1 => {
             // bitmap fonts
             let f = BitFont::from_ansi_font_page(rng.usize(42)).unwrap_or_default();
@@ -256,6 +293,11 @@ pub fn base_file_ext(rng: &mut Rng, force: Option<&str>) -> (String, String, Vec
                 _ => (PaletteFormat::Ice, "ice"),
             };
             let bytes = p.export_palette(&fmt);
+            if rng.chance(1, 8) {
+                // the sixth format has no writer: hand its reader another format's file, or noise
+                let b = if rng.chance(1, 2) { bytes } else { (0..rng.usize(200)).map(|_| rng.byte()).collect() };
+                return ("Palette::load_palette:ase".into(), "pal.ase".into(), b);
+            }
             (format!("Palette::load_palette:{name}"), format!("pal.{name}"), bytes)
         }
         6 | 7 => {
@@ -552,6 +594,81 @@ pub fn disk_fault(rng: &mut Rng, kind: &str, name: &mut String, bytes: &mut Vec<
             }
             format!("header_extreme at={at} val={}", to_hex(v))
         }
+        "sauce_text_bytes" => {
+            // a text field of the SAUCE record (title, author, group, font name) or a comment line holds bytes
+            // outside ASCII at chosen places: a single 0x80, 0xFF, 0x7F, NUL, or nothing but high bytes
+            if !(len >= 128 && &bytes[len - 128..len - 123] == b"SAUCE") {
+                return "sauce_text_bytes noop".into();
+            }
+            let base = len - 128;
+            const TEXT: [(usize, usize, &str); 4] = [(7, 35, "title"), (42, 20, "author"), (62, 20, "group"), (106, 22, "tinfos")];
+            let comments = bytes[base + 104] as usize;
+            let (start, width, fname) = if comments > 0 && base >= comments * 64 && rng.chance(1, 3) {
+                (base - comments * 64 + 64 * rng.usize(comments), 64, "comment")
+            } else {
+                let f = *rng.pick(&TEXT);
+                (base + f.0, f.1, f.2)
+            };
+            let style = rng.below(3);
+            for i in 0..width {
+                bytes[start + i] = match style {
+                    0 => b'a' + (i % 26) as u8,
+                    1 => 0x20 + rng.below(0x60) as u8,
+                    _ => 0x80 + rng.below(0x80) as u8,
+                };
+            }
+            let special = *rng.pick(&[0x80u8, 0x81, 0xff, 0x7f, 0x00, 0xe9, 0x1a]);
+            let at = rng.usize(width);
+            if style != 2 {
+                bytes[start + at] = special;
+            }
+            format!("sauce_text_bytes field={fname} style={style} special={special:#x} at={at}")
+        }
+        "tdf_name_bytes" => {
+            // the name of the first font of a TheDraw file: full length, with bytes outside ASCII at chosen places
+            if len < 37 || &bytes[1..19] != b"TheDraw FONTS file" {
+                return "tdf_name_bytes noop".into();
+            }
+            let n = *rng.pick(&[12u8, 12, 11, 10, 13, 255]);
+            bytes[24] = n;
+            for i in 0..12 {
+                bytes[25 + i] = b'A' + i as u8;
+            }
+            let k = 1 + rng.usize(3);
+            let mut at = Vec::new();
+            for _ in 0..k {
+                let p = if rng.chance(1, 2) { 9 + rng.usize(3) } else { rng.usize(12) };
+                bytes[25 + p] = *rng.pick(&[0x80u8, 0xff, 0xe9, 0xc3, 0xed]);
+                at.push(p);
+            }
+            format!("tdf_name_bytes len={n} at={at:?}")
+        }
+        "sauce_field_extreme" => {
+            // one field of the SAUCE record (appended first if the file has none) holds an extreme value:
+            // declared width / height / further type information, data and file type, comment count, flags
+            let has = len >= 128 && &bytes[len - 128..len - 123] == b"SAUCE";
+            if !has {
+                let mut rec = vec![0x1a];
+                rec.extend(b"SAUCE00");
+                rec.extend(std::iter::repeat(b' ').take(35 + 20 + 20));
+                rec.extend(b"20240101");
+                rec.extend((len as u32).to_le_bytes());
+                rec.extend([1, 1]);
+                rec.extend([80, 0, 25, 0, 0, 0, 0, 0, 0, 0]);
+                rec.extend(std::iter::repeat(0).take(22));
+                bytes.extend(rec);
+            }
+            let base = bytes.len() - 128;
+            // (offset, width) of the numeric fields
+            const FIELDS: [(usize, usize, &str); 9] =
+                [(96, 2, "tinfo1"), (98, 2, "tinfo2"), (100, 2, "tinfo3"), (102, 2, "tinfo4"), (94, 1, "datatype"), (95, 1, "filetype"), (104, 1, "comments"), (105, 1, "flags"), (90, 4, "filesize")];
+            let (off, w, fname) = if rng.chance(1, 2) { FIELDS[rng.usize(2)] } else { *rng.pick(&FIELDS) };
+            let v: u32 = if rng.chance(1, 5) { 0 } else { *rng.pick(&[0u32, 1, 2, 80, 255, 256, 1000, 1001, 0x7fff, 0x8000, 0xffff, 0xffff_ffff]) };
+            for i in 0..w {
+                bytes[base + off + i] = (v >> (8 * i)) as u8;
+            }
+            format!("sauce_field_extreme field={fname} val={v} appended={}", !has)
+        }
         "number_extreme" => {
             // the text counterpart of header_extreme: one decimal number of the file (a count line of a
             // palette file, a parameter of a control sequence, a SAUCE date) holds an extreme value
@@ -622,6 +739,9 @@ pub fn gen_load(prop: &'static str, rng: &mut Rng, _run: u64, _thorough: bool) -
                 *rng.pick(&IPC_FAULTS)
             } else if entry.starts_with("Palette::") && rng.chance(1, 3) {
                 "number_extreme"
+            } else if is_buffer && name.ends_with(".bin") && rng.chance(1, 3) {
+                // a .bin file has no header: its geometry is whatever the SAUCE record declares
+                "sauce_field_extreme"
             } else {
                 *rng.pick(&DISK_FAULTS)
             };
